@@ -56,8 +56,13 @@ func (u *vfC19Up) ServeDNS(ctx context.Context, ch *middleware.Chain) {
 	q := req.Question[0]
 	call := vfC19Call{Name: strings.ToLower(q.Name)}
 	var seen *dns.EDNS0_SUBNET
-	if opt := req.IsEdns0(); opt != nil {
-		call.Options = vfRenderOptions(opt)
+	// everything in the additional section travels upstream, not only the OPT the library would select
+	for _, xr := range req.Extra {
+		opt, isOPT := xr.(*dns.OPT)
+		if !isOPT {
+			continue
+		}
+		call.Options = append(call.Options, vfRenderOptions(opt)...)
 		for _, o := range opt.Option {
 			if s, ok := o.(*dns.EDNS0_SUBNET); ok {
 				seen = s
@@ -112,6 +117,7 @@ type vfC19Step struct {
 	Wire   bool
 	Proto  string
 	Ver    uint8 // EDNS version of the query (non-zero: answered BADVERS by sdns itself)
+	DupOPT bool  // a second, bare OPT record follows the one that carries the options
 }
 
 type vfC19Case struct {
@@ -257,7 +263,16 @@ func vfC19Run(t *testing.T, dir string, c *vfC19Case) (violation string, stats m
 			client := netip.MustParseAddr(st.Client)
 			q := &vfgen.QuerySpec{ID: uint16(500 + si), Name: st.Name, Qtype: dns.TypeA, Qclass: dns.ClassINET, RD: true, CD: st.CD, EDNS: st.EDNS || len(st.Opts) > 0, UDPSize: 1232, Options: st.Opts}
 			q.Version = st.Ver
+			if st.DupOPT && q.EDNS {
+				q.Edits = []string{"dupopt"}
+			}
 			raw := q.Pack()
+			if st.DupOPT && q.EDNS {
+				// the OPT that counts is the last one, and that one is bare: version 0, no options. What the shadowed
+				// OPT carries is the client's all the same, and nothing of it may be seen upstream
+				st.Ver, st.Opts = 0, nil
+				stats["shadowed-opt"]++
+			}
 			before := up.N()
 			r := w.Ask(raw, st.Proto, net.IP(client.AsSlice()), 4000, st.Wire)
 			synctest.Wait()
@@ -423,7 +438,7 @@ func vfC19Gen(rt *rapid.T) *vfC19Case {
 			continue
 		}
 		st := vfC19Step{Name: name, Client: rapid.SampledFrom(clients).Draw(rt, "client"), EDNS: rapid.Bool().Draw(rt, "edns"), CD: rapid.IntRange(0, 7).Draw(rt, "cd") == 0, Ver: rapid.SampledFrom([]uint8{0, 0, 0, 0, 0, 0, 0, 0, 0, 0, 0, 0, 0, 0, 0, 0, 0, 0, 0, 0, 0, 0, 1, 255}).Draw(rt, "ednsversion"),
-			Wire: rapid.Bool().Draw(rt, "wire"), Proto: rapid.SampledFrom([]string{"udp", "tcp"}).Draw(rt, "proto")}
+			Wire: rapid.Bool().Draw(rt, "wire"), Proto: rapid.SampledFrom([]string{"udp", "tcp"}).Draw(rt, "proto"), DupOPT: rapid.IntRange(0, 7).Draw(rt, "dupopt") == 0}
 		if rapid.IntRange(0, 3).Draw(rt, "othername") == 0 {
 			st.Name = rapid.SampledFrom([]string{"s0.test.", "s24.test.", "s16.test.", "none.test."}).Draw(rt, "name2")
 		}
